@@ -342,5 +342,54 @@ func main() {
 	fmt.Println("def lineParserFields : List String := " + list(lf.fields))
 	fmt.Println("/-- the fields assigned unconditionally on entry of ParseMarkup, before anything is read -/")
 	fmt.Println("def lineParserResetOnEntry : List String := " + list(reset))
+	// --- variable.InMemoryStorer: what each mutating method does to the three maps, in order
+	sfile, err := parser.ParseFile(fset, filepath.Join(repo, "variable", "in_memory_storer.go"), nil, 0)
+	if err != nil {
+		fmt.Fprintln(os.Stderr, err)
+		os.Exit(1)
+	}
+	sf := newFacts()
+	structFields(sfile, "InMemoryStorer", sf)
+	var srows []string
+	for _, d := range sfile.Decls {
+		fd, ok := d.(*ast.FuncDecl)
+		if !ok || fd.Body == nil {
+			continue
+		}
+		recv, ok := recvOf(fd, "InMemoryStorer")
+		if !ok {
+			continue
+		}
+		var ops []string
+		ast.Inspect(fd.Body, func(n ast.Node) bool {
+			switch st := n.(type) {
+			case *ast.AssignStmt:
+				for _, l := range st.Lhs {
+					if _, isIndex := l.(*ast.IndexExpr); isIndex {
+						if fld, ok := fieldOf(l, recv); ok {
+							ops = append(ops, "("+q("set")+", "+q(fld)+")")
+						}
+					} else if fld, ok := fieldOf(l, recv); ok {
+						ops = append(ops, "("+q("reset")+", "+q(fld)+")")
+					}
+				}
+			case *ast.CallExpr:
+				if id, ok := st.Fun.(*ast.Ident); ok && len(st.Args) > 0 {
+					if fld, ok := fieldOf(st.Args[0], recv); ok && (id.Name == "delete" || id.Name == "clear") {
+						ops = append(ops, "("+q(id.Name)+", "+q(fld)+")")
+					}
+				}
+			}
+			return true
+		})
+		if len(ops) > 0 {
+			srows = append(srows, "("+q(fd.Name.Name)+", ["+strings.Join(ops, ", ")+"])")
+		}
+	}
+	sort.Strings(srows)
+	fmt.Println("/-- the maps of variable.InMemoryStorer -/")
+	fmt.Println("def storerMaps : List String := " + list(sf.fields))
+	fmt.Println("/-- method ↦ what it does to the maps: (set | delete | clear | reset, map) in source order -/")
+	fmt.Println("def storerOps : List (String × List (String × String)) := [" + strings.Join(srows, ",\n  ") + "]")
 	fmt.Println("end Ysgo.Generated")
 }
